@@ -117,12 +117,15 @@ def space_pool(rng, tier):
     return pool
 
 
-def rand_space(rng, tier, flat_only=False, power_only=False):
+def rand_space(rng, tier, flat_only=False, power_only=False, pweights_ok=False):
     sp, tag = rng.choice(space_pool(rng, tier))
     if flat_only or rng.random() < 0.7:
         return sp, tag
     if power_only or rng.random() < 0.5:
         d = rng.choice([2, 2, 3])
+        if pweights_ok and rng.random() < 0.4:      # component weights of the product space (const or per component)
+            wt = rng.choice([2.0, 0.5, [rng.choice([0.5, 1.0, 2.0, 4.0]) for _ in range(d)]])
+            return Sp('odl.ProductSpace(%s, %d, weighting=%r)' % (sp.code, d, wt)), 'wpow-' + tag
         return Sp('odl.ProductSpace(%s, %d)' % (sp.code, d)), 'pow-' + tag
     sp2, tag2 = rng.choice(space_pool(rng, tier))
     return Sp('odl.ProductSpace(%s, %s)' % (sp.code, sp2.code)), 'prod-%s-%s' % (tag, tag2)
@@ -188,7 +191,9 @@ def rand_leaf(rng, tier, kind=None):
         sp = Sp('odl.ProductSpace(%s, %d)' % (base.code, d))
         two = rng.random() < 0.6
         return ('leaf', kind, {'m': base.n, 'd': d, 'two': two}, sp)
-    sp, tag = rand_space(rng, tier, flat_only=(kind == 'huber'), power_only=kind in ('simplex', 'linf', 'ball1'))
+    sp, tag = rand_space(rng, tier, flat_only=(kind == 'huber'), power_only=kind in ('simplex', 'linf', 'ball1'),
+                         pweights_ok=kind in ('l1', 'l2', 'l2sq', 'const', 'zero', 'box', 'nonneg', 'indzero', 'ballinf',
+                                              'ball2', 'simplex', 'linf', 'ball1'))
     while kind == 'huber' and tag == 'rn-array':     # recorded finding huber-array-weighted-space (probe)
         sp, tag = rand_space(rng, tier, flat_only=True)
     n = sp.n
